@@ -11,7 +11,10 @@
     the float raw / 2^k (PDy of [dyad_norm raw k]) in a row whose scale is the
     float 2^k, 1 <= k <= 64, |raw| <= 2^53; text [EVText cps |-> PStr] of the
     UTF-8 bytes, valid code points; [EVBytes b |-> PBytes b].  IEEE floats
-    (EVF32/EVF64) are outside: PyLite refuses to pack a float.  An integer in a
+    given as bit patterns (EVF32/EVF64) are outside this embedding (PyLite packs
+    a finite float, [PDy |-> VDy], but relating the model's bit pattern to the
+    interpreter's dyadic needs decode-then-encode = identity, not proved here);
+    an integer on a FLOAT/DOUBLE row is inside (struct converts it).  An integer in a
     row with a float scale 2^k, k >= 1, needs |z| <= 2^53 (the source converts
     it to a float before multiplying).  [e_vdim], [e_mlen] >= 0 (findings 1, 2
     at the end of the file: the model and the source differ below 0).
@@ -69,7 +72,7 @@ Definition ev_pv (sc : scale) (v : evalue) : pv :=
       end
   | EVText cps => PStr (bytes_str (utf8_enc cps))
   | EVBytes b => PBytes b
-  | EVF32 _ | EVF64 _ => PNone          (* floats are outside PyLite's struct.pack *)
+  | EVF32 _ | EVF64 _ => PNone          (* bit-pattern floats: outside this embedding *)
   end.
 
 Definition samp_obj (sc : scale) (s : esample) : pv :=
@@ -227,6 +230,22 @@ Proof.
   rewrite IH. destruct v; try contradiction. reflexivity.
 Qed.
 
+Lemma no_pdy_unscaled sc l :
+  model_sc sc = None -> scale_ok sc -> Forall (num_ok sc) l -> existsb is_pdy (map (ev_pv sc) l) = false.
+Proof.
+  intros Em Hsc. induction 1 as [|v l Hv _ IH]; cbn [map existsb]; [reflexivity|].
+  rewrite IH. destruct v as [z| | |raw| |]; cbn [num_ok] in Hv; try contradiction.
+  - reflexivity.
+  - destruct sc as [| |z]; try contradiction. destruct Hv as [Hs _]. destruct Hsc as (k & Hk & ->).
+    rewrite model_sc_pow2 in Em; [discriminate|]. destruct (Z.eq_dec k 0) as [->|]; [contradiction Hs; reflexivity|lia].
+Qed.
+
+Lemma no_pdy_is_int sc l : Forall is_int l -> existsb is_pdy (map (ev_pv sc) l) = false.
+Proof.
+  induction 1 as [|v l Hv _ IH]; cbn [map existsb]; [reflexivity|].
+  rewrite IH. destruct v; try contradiction. reflexivity.
+Qed.
+
 Lemma mapM_raw_ints l :
   Forall is_int l -> Stream.mapM Stream.raw_value l = Frame.Ok (map (fun v => VInt (num_z None v)) l).
 Proof.
@@ -280,6 +299,10 @@ Ltac py_stuck_hook h ::=
   | dy_align 1 0 1 0 => change (dy_align 1 0 1 0) with (1, 1)
   | map_res to_sv (map (ev_pv ?sc) ?l) =>
       first [ rewrite (to_sv_unscaled sc l) by assumption | rewrite (to_sv_ints sc l) by assumption ]
+  | existsb is_pdy (map (ev_pv ?sc) ?l) =>
+      first [ rewrite (no_pdy_unscaled sc l) by assumption | rewrite (no_pdy_is_int sc l) by assumption ]
+  | existsb is_pdy (map (fun y => PInt _) ?l) => rewrite no_pdy_ints
+  | existsb is_pdy (map PInt ?l) => rewrite no_pdy_PInt
   | Stream.mapM Stream.raw_value ?l => rewrite (mapM_raw_ints l) by assumption
   | map_res to_sv (map (fun y => PInt _) ?l) => rewrite map_res_to_sv_ints
   | map_res to_sv (map PInt ?l) => rewrite map_res_to_sv_PInt
@@ -540,6 +563,7 @@ Section Enc.
     | Nat.eqb (List.length (map ?g ?l)) 0 => rewrite (length_map_is_nil g l)
     | Z.ltb 0 (str_len (Stream.msfmt_get ?m)) => rewrite (msfmt_len_pos m)
     | map_res to_sv (map PInt ?l) => rewrite map_res_to_sv_PInt
+    | existsb is_pdy (map PInt ?l) => rewrite no_pdy_PInt
     end.
 
   Variables (n : nat) (cbv dv : pv).
